@@ -177,7 +177,7 @@ def c10(tier, replay=None):
     vals += [k / 2.0 ** j for k in (1, 3, 5, 7, 9, 11, 13, 15, 17, 33, 255) for j in range(1, 8 if tier == "quick" else 12)]     # dyadic rationals: exact ties at some scale
     for d in vals:
         for sc in ((-2, 0, 1, 3, 6) if tier == "quick" else (-3, -2, -1, 0, 1, 2, 3, 4, 5, 6, 8)):
-            for su in (0.0, abs(d) * 0.013 + 10.0 ** (-sc) * 1.7):
+            for su in (0.0, abs(d) * 0.013 + 10.0 ** (-sc) * 1.7, 10.0 ** (-sc) * 0.3, 10.0 ** (-sc) * 0.04):     # the last two round away at this scale
                 for mlz in (0, 5):
                     if abs(d) * 10 ** sc < 1e15 and su * 10 ** sc < 1e15:
                         fcases.append(("init", d, su, sc, mlz))
